@@ -135,6 +135,15 @@ class Opaque:
         return "Opaque<%s>" % self.tag
 
 
+def enum_like(t, tag="ctype"):
+    """enum-member-like object whose identity is the Name-sorted term t: `.name`, and == / in against real Enum members or other such objects"""
+    def eq(e, other, t=t):
+        if isinstance(other, Opaque) and "name" in other.attrs: return t == other.attrs["name"].z
+        if hasattr(other, "name") and isinstance(getattr(other, "name"), str): return t == name_const(other.name)
+        return False
+    return Opaque(tag, attrs={"name": SV(t, "name")}, methods={"eq": eq})
+
+
 class HMap:
     """abstract heap map idx -> value through python callables"""
 
